@@ -18,6 +18,7 @@ CONSTANTS D,          \* parameter denominator
 
 \* cfg files cannot write negative numbers: named values for the configurations
 MinusTwo == -2
+Zero == 0
 MinusOne == -1
 MinusThree == -3
 Dense4 == {-3, 0, 1, 4}
